@@ -166,7 +166,7 @@ class HostKeyTest:
                     kex_group.send_init(s)  # For group exchanges this already reads (and may reject) the server's group message.
                     kex_reply = kex_group.recv_reply(s)
                     raw_hostkey_bytes = kex_reply if kex_reply is not None else b''
-                except KexDHException:
+                except (KexDHException, SSH_Socket.InvalidPacketException):
                     msg = "Failed to parse server's host key."
                     if not out.debug:
                         msg += "  Re-run in debug mode to see stack trace."
